@@ -5,6 +5,7 @@ import json, os, sys
 HERE = os.path.dirname(os.path.dirname(os.path.abspath(__file__)))
 WRITTEN = {
     4: "independent sub-agent given only the property text and a scratch worktree; fourth round: told which ideas of three rounds had been used and what kind of tool it was up against",
+    7: "independent sub-agent (seventh round, fresh agents) given only the text of the property and its own scratch worktree, nothing from /verif; this round asked that m1 need an interleaving/ordering or a failure at a particular point, and m2 two cooperating sites or state surviving between operations (not a path-keyed cache)",
     6: "independent sub-agent (sixth round, fresh agents) given only the text of the property (statement and quantifier) and its own scratch worktree of /repo; nothing from /verif",
     5: "independent sub-agent given only the text of the property (statement and quantifier) and its own scratch worktree of /repo; nothing from /verif",
 }
